@@ -175,6 +175,9 @@ func c05Pool() []any {
 		// one volume mounted at two paths
 		lm(map[string]any{"name": "data", "mountPath": "/a"}, map[string]any{"name": "data", "mountPath": "/b", "v": "s1"}),
 		lm(map[string]any{"name": "data", "mountPath": "/b", "v": "s2"}),
+		// the same for the pair (port, name): one service name on two ports - `port` is tried before `name`
+		lm(map[string]any{"name": "dns", "port": int64(53)}, map[string]any{"name": "dns", "port": int64(5353), "v": "s1"}),
+		lm(map[string]any{"name": "dns", "port": int64(5353), "v": "s2"}),
 	}
 }
 
